@@ -159,7 +159,7 @@ def _pickle_sensor_roundtrip(s, fresh):
     return (state, fresh)
 
 
-@contract("mysensors.sensor:Sensor.__getstate__", props=["C11"], name="L.pickle-sensor")
+@contract("mysensors.sensor:Sensor.__getstate__", props=["C07", "C08", "C11"], name="L.pickle-sensor")
 class PickleSensor:
     lemma = True
     params = ["s", "fresh"]
